@@ -87,3 +87,58 @@ func (f *Frame) safeTags() []string {
 	}
 	return f.tags
 }
+
+func init() {
+	// atloop(e): e evaluated in the state on entry to the loop whose invariant is being stated
+	extCalls["atloop"] = func(e *Env, x *Expr) (Bound, error) {
+		if e.loop == nil || e.loop.entryState == nil || e.f == nil {
+			return Bound{}, fmt.Errorf("atloop() outside a loop invariant")
+		}
+		n := *e
+		n.state = e.loop.entryState
+		f, li := e.f, e.loop
+		n.lookup = func(name string) (Bound, bool) { return f.lookupLocal(name, li.entryState, li) }
+		return n.eval(x.Args[0])
+	}
+}
+
+func init() {
+	// framemap(m) / framemem(s) in a loop invariant: objects that existed when the function was entered have not been
+	// modified since the loop was entered (the loop only writes objects allocated by this activation)
+	frame := func(e *Env, comps []string) (Bound, error) {
+		if e.loop == nil || e.loop.entryState == nil || e.f == nil {
+			return Bound{}, fmt.Errorf("framemap/framemem outside a loop invariant")
+		}
+		vc := e.vc
+		nextEntry := vc.get(e.f.rootEntry(), "next")
+		var cs []string
+		for _, c := range comps {
+			cs = append(cs, fmt.Sprintf("(forall ((r Int)) (! (=> (and (>= r 0) (< r %s)) (= (select %s r) (select %s r))) :pattern ((select %s r))))",
+				nextEntry, vc.get(e.state, c), vc.get(e.loop.entryState, c), vc.get(e.state, c)))
+		}
+		return Bound{V: Val{and(cs...), "Bool"}, T: types.Typ[types.Bool]}, nil
+	}
+	extCalls["framemap"] = func(e *Env, x *Expr) (Bound, error) {
+		a, err := e.eval(x.Args[0])
+		if err != nil {
+			return Bound{}, err
+		}
+		mt, ok := a.T.Underlying().(*types.Map)
+		if !ok {
+			return Bound{}, fmt.Errorf("framemap of non-map")
+		}
+		h, v := e.vc.regMap(mt)
+		return frame(e, []string{h, v})
+	}
+	extCalls["framemem"] = func(e *Env, x *Expr) (Bound, error) {
+		a, err := e.eval(x.Args[0])
+		if err != nil {
+			return Bound{}, err
+		}
+		st, ok := a.T.Underlying().(*types.Slice)
+		if !ok {
+			return Bound{}, fmt.Errorf("framemem of non-slice")
+		}
+		return frame(e, []string{e.vc.regMem(st.Elem())})
+	}
+}
